@@ -139,9 +139,11 @@ func (c *Candidates) ExportV1(state *types.AppState, height uint64, validators [
 		})
 	}
 
+	c.lock.RLock()
 	for pubkey := range c.blockList {
 		state.BlockListCandidates = append(state.BlockListCandidates, pubkey)
 	}
+	c.lock.RUnlock()
 	sort.SliceStable(state.BlockListCandidates, func(i, j int) bool {
 		return bytes.Compare(state.BlockListCandidates[i].Bytes(), state.BlockListCandidates[j].Bytes()) == 1
 	})
